@@ -123,7 +123,7 @@ mod v_socket_dns {
     }
 
     /// 12-byte header, every field symbolic, then one question `<2>xx<1>x<0> TYPE CLASS`
-    fn put_header_question(t: &mut Tpl) -> Hdr {
+    fn put_header_question(t: &mut Tpl, qclass: u16) -> Hdr {
         let id = t.sym16();
         let flags = t.sym16();
         let qd = t.sym16();
@@ -137,23 +137,39 @@ mod v_socket_dns {
         let r2 = t.sym();
         t.put(0);
         let rqtype = t.sym16();
-        let rqclass = t.sym16();
+        // concrete: a symbolic CLASS makes Question::parse fail under a symbolic condition (see `Owner`)
+        t.put16(qclass);
+        let rqclass = qclass;
         Hdr { id, flags, qd, an, rq: [r0, r1, r2], rqtype, rqclass }
     }
 
-    /// owner-name form of an answer record (the case split of DESIGN.md C19)
+    /// owner-name form of an answer record (the case split of DESIGN.md C19).  Pointer targets are concrete per
+    /// form: a symbolic target makes `parse_name` return `Some(Err)` under a symbolic condition, and CBMC's symbolic
+    /// execution then follows the merged (partly uninitialised) label pointer into every object (measured: out of
+    /// memory).  The targets are instead enumerated as concrete forms.
     #[derive(Clone, Copy, PartialEq, Eq)]
     enum Owner {
         /// `<2>xx<1>x<0>` with symbolic label bytes
         Inline,
-        /// compression pointer to the question name (0xc00c)
-        PtrQ,
-        /// compression pointer to a symbolic 14-bit offset (forward, backward, self, out of range)
-        PtrSym,
-        /// compression pointer to itself
-        PtrSelf,
-        /// `<2>xx` then a compression pointer to a symbolic 14-bit offset
-        LabelPtr,
+        /// compression pointer to the given offset (QN_OFF = the question name, SELF = itself)
+        Ptr(usize),
+        /// `<2>xx` then a compression pointer to the given offset
+        LabelPtr(usize),
+    }
+    const SELF: usize = 0xffff;
+
+    /// TYPE and RDATA layout of a record: concrete TYPE (a symbolic TYPE makes `Record::parse` fail under a symbolic
+    /// condition, same effect as above), symbolic RDATA bytes
+    #[derive(Clone, Copy, PartialEq, Eq)]
+    enum Rd {
+        A,
+        Aaaa,
+        /// CNAME with RDATA `<1>x` + pointer to the given offset (QSUF_OFF: "x.c"; SELF: points at itself)
+        CnameLabelPtr(usize),
+        /// CNAME with RDATA `<2>xx<0>`
+        CnameInline,
+        /// NS record with 4 opaque bytes
+        Other,
     }
 
     #[derive(Clone, Copy)]
@@ -163,9 +179,16 @@ mod v_socket_dns {
         class: u16,
         rdlen: u16,
         rd_off: usize,
+        /// RDATA bytes actually present in the template
         rd_cap: usize,
     }
     const NOREC: RecT = RecT { name_off: 0, ty: 0, class: 0, rdlen: 0, rd_off: 0, rd_cap: 0 };
+
+    fn put_ptr(t: &mut Tpl, to: usize, own: usize) {
+        let to = if to == SELF { own } else { to };
+        t.put(0xc0 | ((to >> 8) as u8 & 0x3f));
+        t.put(to as u8);
+    }
 
     fn put_owner(t: &mut Tpl, o: Owner) {
         match o {
@@ -177,67 +200,61 @@ mod v_socket_dns {
                 t.sym();
                 t.put(0);
             }
-            Owner::PtrQ => {
-                t.put(0xc0);
-                t.put(QN_OFF as u8);
+            Owner::Ptr(to) => {
+                let own = t.n;
+                put_ptr(t, to, own);
             }
-            Owner::PtrSym => {
-                let hi: u8 = kani::any();
-                t.put(0xc0 | hi);
-                t.sym();
-            }
-            Owner::PtrSelf => {
-                let at = t.n as u8;
-                t.put(0xc0);
-                t.put(at);
-            }
-            Owner::LabelPtr => {
+            Owner::LabelPtr(to) => {
+                let own = t.n;
                 t.put(2);
                 t.sym();
                 t.sym();
-                let hi: u8 = kani::any();
-                t.put(0xc0 | hi);
-                t.sym();
+                put_ptr(t, to, own);
             }
         }
     }
 
-    /// NAME TYPE CLASS TTL RDLENGTH RDATA; type, class, ttl, rdlength and `rd_cap` rdata bytes symbolic
-    fn put_record(t: &mut Tpl, o: Owner, rd_cap: usize) -> RecT {
+    /// NAME TYPE CLASS TTL RDLENGTH RDATA.  `class` and `rdlen_delta` are concrete knobs of the form (1 / 0 for a
+    /// well-formed record); TTL and the RDATA bytes are symbolic.
+    fn put_record(t: &mut Tpl, o: Owner, rd: Rd, class: u16, rdlen_delta: i16) -> RecT {
         let name_off = t.n;
         put_owner(t, o);
-        let ty = t.sym16();
-        let class = t.sym16();
+        let (ty, cap): (u16, usize) = match rd {
+            Rd::A => (1, 4),
+            Rd::Aaaa => (28, 16),
+            Rd::CnameLabelPtr(_) => (5, 4),
+            Rd::CnameInline => (5, 4),
+            Rd::Other => (2, 4),
+        };
+        t.put16(ty);
+        t.put16(class);
         t.sym16();
         t.sym16();
-        let rdlen = t.sym16();
+        let rdlen = (cap as i16 + rdlen_delta) as u16;
+        t.put16(rdlen);
         let rd_off = t.n;
-        // rd_cap is 4 or 16 (straight-line: no harness loop competes for the unwind bound)
-        t.sym4();
-        if rd_cap > 4 {
-            t.sym4();
-            t.sym4();
-            t.sym4();
+        match rd {
+            Rd::A | Rd::Other => t.sym4(),
+            Rd::Aaaa => {
+                t.sym4();
+                t.sym4();
+                t.sym4();
+                t.sym4();
+            }
+            Rd::CnameLabelPtr(to) => {
+                t.put(1);
+                t.sym();
+                let own = t.n;
+                put_ptr(t, to, own);
+            }
+            Rd::CnameInline => {
+                t.put(2);
+                t.sym();
+                t.sym();
+                t.put(0);
+            }
         }
-        RecT { name_off, ty, class, rdlen, rd_off, rd_cap }
-    }
-
-    /// CNAME record owned by the question name; RDATA = `<1>x` then a pointer with symbolic low byte
-    /// (0x0f: "x.c", 0x0c: "x.ab.c", its own offset: a loop, >= length: out of range, ...)
-    fn put_cname_record(t: &mut Tpl) -> RecT {
-        let name_off = t.n;
-        put_owner(t, Owner::PtrQ);
-        t.put16(5);
-        let class = t.sym16();
-        t.sym16();
-        t.sym16();
-        t.put16(4);
-        let rd_off = t.n;
-        t.put(1);
-        t.sym();
-        t.put(0xc0);
-        t.sym();
-        RecT { name_off, ty: 5, class, rdlen: 4, rd_off, rd_cap: 4 }
+        RecT { name_off, ty, class, rdlen, rd_off, rd_cap: cap }
     }
 
     // ------------------------------------------------------------------ reference name comparison
@@ -341,15 +358,19 @@ mod v_socket_dns {
     struct Form {
         nrec: usize,
         o: [Owner; 2],
-        rd: [usize; 2],
-        /// record 0 is the concrete-layout CNAME record instead of `o[0]`
-        cname_first: bool,
-        /// payload handed to `process` is a symbolic-length prefix of the template
-        trunc: bool,
+        rd: [Rd; 2],
+        /// CLASS of the question and of the records (1 = IN)
+        qclass: u16,
+        class: [u16; 2],
+        /// RDLENGTH minus the RDATA size the TYPE calls for
+        rdlen_delta: [i16; 2],
+        /// hand `process` only this many bytes of the template (0 = all)
+        cut: usize,
         /// also demand that the canonical matching one-record response completes the query
         complete: bool,
     }
 
+    #[derive(Clone, Copy)]
     struct Out {
         acc: bool,
         completed: bool,
@@ -366,8 +387,6 @@ mod v_socket_dns {
         name_changed: bool,
         is_a: bool,
         first_is_v4: bool,
-        ty0: u16,
-        ptr0: usize,
     }
 
     fn process_form(f: Form) -> Out {
@@ -402,17 +421,17 @@ mod v_socket_dns {
 
         // the response
         let mut t = Tpl::new();
-        let hd = put_header_question(&mut t);
+        let hd = put_header_question(&mut t, f.qclass);
         let mut recs = [NOREC; 2];
         if f.nrec >= 1 {
-            recs[0] = if f.cname_first { put_cname_record(&mut t) } else { put_record(&mut t, f.o[0], f.rd[0]) };
+            recs[0] = put_record(&mut t, f.o[0], f.rd[0], f.class[0], f.rdlen_delta[0]);
         }
         if f.nrec >= 2 {
-            recs[1] = put_record(&mut t, f.o[1], f.rd[1]);
+            recs[1] = put_record(&mut t, f.o[1], f.rd[1], f.class[1], f.rdlen_delta[1]);
         }
         let full = t.n;
         let m = t.b;
-        let n = if f.trunc { any_le(full) } else { full };
+        let n = if f.cut != 0 { f.cut } else { full };
 
         let sport: u16 = kani::any();
         let dport: u16 = kani::any();
@@ -511,8 +530,7 @@ mod v_socket_dns {
 
         let mut out = Out {
             acc, completed: false, failed: false, naddr: 0, id_ok, port_ok, question_ok: qname_ok && qtype_ok, qr, rcode,
-            an: hd.an, cname_followed, other_name, name_changed: false, is_a, first_is_v4: false, ty0: recs[0].ty,
-            ptr0: (((m[ANS_OFF] & 0x3f) as usize) << 8) | m[ANS_OFF + 1] as usize,
+            an: hd.an, cname_followed, other_name, name_changed: false, is_a, first_is_v4: false,
         };
         let q = s.queries[0].as_ref().unwrap();
         match &q.state {
@@ -535,8 +553,9 @@ mod v_socket_dns {
                     // the canonical answer (one A/AAAA record of the requested type owned by the queried name) is not ignored
                     let r = recs[0];
                     let owner_ok = match f.o[0] {
-                        Owner::PtrQ => true,
+                        Owner::Ptr(QN_OFF) => true,
                         Owner::Inline => m[r.name_off + 1] == qn[0] && m[r.name_off + 2] == qn[1] && m[r.name_off + 4] == qn[2],
+                        Owner::LabelPtr(QSUF_OFF) => m[r.name_off + 1] == qn[0] && m[r.name_off + 2] == qn[1],
                         _ => false,
                     };
                     let canonical = acc && port_ok && id_ok && qr && (hd.flags >> 11) & 0xf == 0 && rcode != 3 && qname_ok && qtype_ok
@@ -582,86 +601,146 @@ mod v_socket_dns {
         out
     }
 
-    const F_ONE: Form = Form { nrec: 1, o: [Owner::PtrQ, Owner::PtrQ], rd: [16, 0], cname_first: false, trunc: false, complete: false };
+    /// one answer record owned by a pointer to the question name, A data, everything well formed
+    const F_ONE: Form = Form {
+        nrec: 1, o: [Owner::Ptr(QN_OFF), Owner::Ptr(QN_OFF)], rd: [Rd::A, Rd::A], qclass: 1, class: [1, 1], rdlen_delta: [0, 0], cut: 0, complete: false,
+    };
+    const F_TWO: Form = Form { nrec: 2, ..F_ONE };
 
-    // @harness props=C19,C03 cfg=KN tier=q to=900 mem=6 unwind=34 opts=nomem covers=6 funcs=dns::Socket::accepts;dns::Socket::process;dns::Socket::start_query;wire::dns::Packet::parse_name;wire::dns::Question::parse;wire::dns::Record::parse;dns::eq_names;dns::copy_name bounds=query_name_layout_<2>xx<1>x_symbolic_label_bytes;_type_A_or_AAAA;_50-byte_response_template:_all_header_fields_symbolic,_question_of_the_same_layout,_one_answer_record_owned_by_pointer_0xc00c_with_symbolic_TYPE/CLASS/TTL/RDLENGTH_and_16_symbolic_RDATA_bytes;_source_IPv4_any_or_2001:db8::x,_ports_any
+    /// Run `process_form` on the form selected by a symbolic index: every arm is executed with its own concrete
+    /// shape, the solver picks the arm.
+    macro_rules! one_of {
+        ($($f:expr),+ $(,)?) => {{
+            let forms = [$($f),+];
+            let sel = any_lt(forms.len());
+            let mut out: Option<Out> = None;
+            let mut i = 0usize;
+            $(
+                if sel == i {
+                    out = Some(process_form($f));
+                }
+                i += 1;
+            )+
+            (sel, out.unwrap())
+        }};
+    }
+
+    // @harness props=C19,C03 cfg=KN tier=q to=900 mem=4 unwind=10 opts=nomem covers=6 funcs=dns::Socket::accepts;dns::Socket::process;dns::Socket::start_query;wire::dns::Packet::parse_name;wire::dns::Question::parse;wire::dns::Record::parse;dns::eq_names bounds=query_name_layout_<2>xx<1>x_symbolic_label_bytes;_type_A_or_AAAA;_response_template:_all_header_fields_symbolic_(id,_flags,_4_counts),_question_of_the_same_layout_with_symbolic_label_bytes_and_type,_one_answer_record_owned_by_pointer_0xc00c,_TYPE_A_or_AAAA_(two_concrete_shapes),_symbolic_TTL_and_RDATA;_source_IPv4_any_or_2001:db8::x,_ports_any
     #[kani::proof]
     pub(crate) fn dns_process_ptrq() {
-        let o = process_form(Form { complete: true, ..F_ONE });
-        kani::cover!(o.completed && o.naddr == 1 && o.first_is_v4, "query completed with one IPv4 address");
-        kani::cover!(o.completed && !o.first_is_v4, "query completed with one IPv6 address");
+        let (sel, o) = one_of!(Form { complete: true, ..F_ONE }, Form { rd: [Rd::Aaaa, Rd::A], complete: true, ..F_ONE });
+        kani::cover!(o.completed && o.naddr == 1 && o.first_is_v4 && sel == 0, "query completed with one IPv4 address");
+        kani::cover!(o.completed && !o.first_is_v4 && sel == 1, "query completed with one IPv6 address");
         kani::cover!(o.acc && !o.id_ok && !o.completed && !o.failed && o.port_ok && o.question_ok && o.qr, "response rejected: wrong id");
         kani::cover!(o.acc && o.id_ok && !o.port_ok && !o.completed && !o.failed, "response rejected: wrong destination port");
         kani::cover!(o.failed && o.rcode == 3, "NXDomain failed the query");
-        kani::cover!(o.failed && o.rcode == 0 && o.ty0 == 5, "lone CNAME answer failed the query");
+        kani::cover!(o.failed && o.rcode == 0 && o.an == 0, "answerless response failed the query");
     }
 
-    // @harness props=C19,C03 cfg=KN tier=q to=900 mem=6 unwind=34 opts=nomem covers=3 funcs=dns::Socket::process;wire::dns::Packet::parse_name;wire::dns::Record::parse;dns::eq_names bounds=as_dns_process_ptrq_but_the_answer's_owner_name_is_written_inline_<2>xx<1>x<0>_with_symbolic_label_bytes_(54-byte_template)
+    // @harness props=C19,C03 cfg=KN tier=q to=900 mem=4 unwind=10 opts=nomem covers=3 funcs=dns::Socket::process;wire::dns::Record::parse;wire::dns::RecordData::parse;dns::eq_names;dns::copy_name bounds=as_dns_process_ptrq;_the_single_answer_record_is_a_CNAME_(RDATA_<1>x+pointer_to_the_question's_last_label,_or_<2>xx<0>)_or_an_NS_record
     #[kani::proof]
-    pub(crate) fn dns_process_inline() {
-        let o = process_form(Form { o: [Owner::Inline, Owner::PtrQ], complete: true, ..F_ONE });
-        kani::cover!(o.completed && o.naddr == 1, "query completed from inline owner name");
-        kani::cover!(o.failed && o.other_name && o.rcode == 0, "record for another name ignored");
-        kani::cover!(o.acc && !o.question_ok && o.id_ok && o.port_ok && o.qr && !o.completed && !o.failed, "response rejected: other question");
+    pub(crate) fn dns_process_no_address() {
+        let (sel, o) = one_of!(
+            Form { rd: [Rd::CnameLabelPtr(QSUF_OFF), Rd::A], ..F_ONE },
+            Form { rd: [Rd::CnameInline, Rd::A], ..F_ONE },
+            Form { rd: [Rd::Other, Rd::A], ..F_ONE },
+        );
+        assert!(!o.completed, "prop:c19_no_completion_without_address_record");
+        kani::cover!(o.failed && o.rcode == 0 && sel == 0 && o.cname_followed, "lone CNAME answer failed the query");
+        kani::cover!(o.failed && o.rcode == 0 && sel == 2, "NS answer failed the query");
+        kani::cover!(o.acc && o.id_ok && o.port_ok && o.question_ok && o.qr && o.an == 2 && !o.failed, "ANCOUNT beyond the message: response dropped");
     }
 
-    // @harness props=C19,C03,C07 cfg=KN tier=q to=1200 mem=8 unwind=34 opts=nomem covers=4 funcs=dns::Socket::process;wire::dns::Packet::parse_name;wire::dns::Record::parse;dns::eq_names;dns::copy_name bounds=as_dns_process_ptrq_but_the_answer's_owner_name_is_a_compression_pointer_to_any_14-bit_offset_(backward,_forward,_self,_out_of_range);_oracle_follows_<=4_consecutive_pointers_and_<=5_labels
+    // @harness props=C19,C03 cfg=KN tier=q to=900 mem=4 unwind=10 opts=nomem covers=3 funcs=dns::Socket::process;wire::dns::Packet::parse_name;wire::dns::Record::parse;dns::eq_names bounds=as_dns_process_ptrq_(TYPE_A);_the_answer's_owner_name_is_written_inline_<2>xx<1>x<0>_with_symbolic_label_bytes,_or_as_<2>xx+pointer_to_the_question's_last_label_/_to_the_question_name_/_to_itself
     #[kani::proof]
-    pub(crate) fn dns_process_ptrsym() {
-        let o = process_form(Form { o: [Owner::PtrSym, Owner::PtrQ], ..F_ONE });
-        kani::cover!(o.completed && o.ptr0 == QN_OFF, "completed through pointer to the question name");
-        kani::cover!(o.acc && o.id_ok && o.port_ok && o.question_ok && o.qr && o.an == 1 && o.ptr0 == ANS_OFF && !o.completed && !o.failed, "self-pointer: response dropped");
-        kani::cover!(o.acc && o.id_ok && o.port_ok && o.question_ok && o.qr && o.an == 1 && o.ptr0 > ANS_OFF + 12 && o.ptr0 < 50 && o.failed, "forward pointer into RDATA: other name ignored");
-        kani::cover!(o.failed && o.ptr0 == QSUF_OFF && o.rcode == 0, "pointer to a suffix of the question name ignored");
+    pub(crate) fn dns_process_inline_labelptr() {
+        let (sel, o) = one_of!(
+            Form { o: [Owner::Inline, Owner::Inline], complete: true, ..F_ONE },
+            Form { o: [Owner::LabelPtr(QSUF_OFF), Owner::Inline], complete: true, ..F_ONE },
+            Form { o: [Owner::LabelPtr(QN_OFF), Owner::Inline], ..F_ONE },
+            Form { o: [Owner::LabelPtr(SELF), Owner::Inline], ..F_ONE },
+        );
+        kani::cover!(o.completed && o.naddr == 1 && sel == 0, "query completed from inline owner name");
+        kani::cover!(o.completed && sel == 1, "completed through label + pointer to the question's last label");
+        kani::cover!(o.failed && o.other_name && o.rcode == 0 && sel == 0, "record for another name ignored");
     }
 
-    // @harness props=C19,C03,C07 cfg=KN tier=q to=600 mem=6 unwind=34 opts=nomem covers=2 funcs=dns::Socket::process;wire::dns::Packet::parse_name;dns::eq_names bounds=as_dns_process_ptrq_but_the_answer's_owner_name_is_a_compression_pointer_to_itself
+    // @harness props=C19,C03,C07 cfg=KN tier=q to=900 mem=4 unwind=10 opts=nomem covers=4 funcs=dns::Socket::process;wire::dns::Packet::parse_name;dns::eq_names bounds=as_dns_process_ptrq_(TYPE_A);_the_answer's_owner_name_is_a_compression_pointer_to:_itself,_the_question's_last_label,_the_question's_root_octet,_its_own_RDATA_(forward,_symbolic_bytes),_the_message_id_(symbolic_bytes),_the_first_offset_beyond_the_message,_0x3fff
     #[kani::proof]
-    pub(crate) fn dns_process_ptrself() {
-        let o = process_form(Form { o: [Owner::PtrSelf, Owner::PtrQ], rd: [4, 0], ..F_ONE });
-        assert!(!o.completed, "prop:c19_self_pointer_never_completes_query");
-        kani::cover!(o.acc && o.id_ok && o.port_ok && o.question_ok && o.qr && o.an == 1 && !o.failed, "self-pointer: response dropped, query still pending");
-        kani::cover!(o.failed && o.an == 0, "answerless response failed the query");
+    pub(crate) fn dns_process_pointers() {
+        let (sel, o) = one_of!(
+            Form { o: [Owner::Ptr(SELF), Owner::Inline], ..F_ONE },
+            Form { o: [Owner::Ptr(QSUF_OFF), Owner::Inline], ..F_ONE },
+            Form { o: [Owner::Ptr(QN_OFF + 5), Owner::Inline], ..F_ONE },
+            Form { o: [Owner::Ptr(ANS_OFF + 12), Owner::Inline], ..F_ONE },
+            Form { o: [Owner::Ptr(0), Owner::Inline], ..F_ONE },
+            Form { o: [Owner::Ptr(ANS_OFF + 16), Owner::Inline], ..F_ONE },
+            Form { o: [Owner::Ptr(0x3fff), Owner::Inline], ..F_ONE },
+        );
+        if sel == 0 || sel == 5 || sel == 6 {
+            assert!(!o.completed, "prop:c19_self_or_out_of_range_pointer_never_completes_query");
+        }
+        kani::cover!(sel == 0 && o.acc && o.id_ok && o.port_ok && o.question_ok && o.qr && o.an == 1 && !o.failed, "self-pointer: response dropped, query still pending");
+        kani::cover!(sel == 1 && o.failed && o.rcode == 0 && o.other_name, "pointer to a suffix of the question name ignored");
+        kani::cover!(sel == 3 && o.failed && o.rcode == 0, "forward pointer into RDATA: other name ignored");
+        kani::cover!(sel == 5 && o.acc && o.id_ok && o.port_ok && o.question_ok && o.qr && o.an == 1 && !o.failed, "pointer beyond the message: response dropped");
     }
 
-    // @harness props=C19,C03,C07 cfg=KN tier=q to=1200 mem=8 unwind=34 opts=nomem covers=3 funcs=dns::Socket::process;wire::dns::Packet::parse_name;wire::dns::Record::parse;dns::eq_names;dns::copy_name bounds=as_dns_process_ptrq_but_the_answer's_owner_name_is_<2>xx_followed_by_a_compression_pointer_to_any_14-bit_offset_(53-byte_template);_oracle_follows_<=4_consecutive_pointers_and_<=5_labels
-    #[kani::proof]
-    pub(crate) fn dns_process_labelptr() {
-        let o = process_form(Form { o: [Owner::LabelPtr, Owner::PtrQ], ..F_ONE });
-        kani::cover!(o.completed && o.naddr == 1, "completed through label + pointer to the question's last label");
-        kani::cover!(o.failed && o.other_name && o.rcode == 0, "label + pointer spelling another name ignored");
-        kani::cover!(o.acc && o.id_ok && o.port_ok && o.question_ok && o.qr && o.an == 1 && !o.completed && !o.failed, "malformed label + pointer: response dropped");
-    }
-
-    // @harness props=C19,C03 cfg=KN tier=q to=1200 mem=8 unwind=34 opts=nomem covers=4 funcs=dns::Socket::process;wire::dns::Packet::parse_name;wire::dns::Record::parse;dns::eq_names;dns::copy_name bounds=54-byte_template:_record_1_=_CNAME_owned_by_0xc00c_with_RDATA_<1>x+pointer_to_symbolic_low_byte;_record_2_owned_by_pointer_to_any_14-bit_offset,_symbolic_TYPE/CLASS/RDLENGTH,_4_RDATA_bytes_(A_only);_ANCOUNT_symbolic
+    // @harness props=C19,C03 cfg=KN tier=q to=900 mem=4 unwind=10 opts=nomem covers=4 funcs=dns::Socket::process;wire::dns::Packet::parse_name;wire::dns::Record::parse;dns::eq_names;dns::copy_name bounds=two_answer_records:_CNAME_owned_by_0xc00c_(RDATA_<1>x+pointer_to_the_question's_last_label,_to_the_question_name,_or_to_itself)_then_an_A_record_owned_by_a_pointer_to_the_CNAME's_RDATA_/_by_0xc00c_/_by_an_inline_name;_ANCOUNT_symbolic
     #[kani::proof]
     pub(crate) fn dns_process_cname_then() {
-        let o = process_form(Form { nrec: 2, o: [Owner::PtrQ, Owner::PtrSym], rd: [4, 4], cname_first: true, trunc: false, complete: false });
-        kani::cover!(o.completed && o.cname_followed && o.naddr == 1, "CNAME followed");
-        kani::cover!(o.failed && o.cname_followed && o.other_name && o.rcode == 0, "record for the original name after a CNAME ignored");
-        kani::cover!(o.acc && o.id_ok && o.port_ok && o.question_ok && o.qr && o.an == 2 && !o.completed && !o.failed, "CNAME then malformed record: response dropped");
-        kani::cover!(o.name_changed, "dropped response changed the pending query's name");
+        const RD1: usize = ANS_OFF + 12; // RDATA of record 1 (owner is a 2-byte pointer)
+        let (sel, o) = one_of!(
+            Form { o: [Owner::Ptr(QN_OFF), Owner::Ptr(RD1)], rd: [Rd::CnameLabelPtr(QSUF_OFF), Rd::A], ..F_TWO },
+            Form { o: [Owner::Ptr(QN_OFF), Owner::Ptr(QN_OFF)], rd: [Rd::CnameLabelPtr(QSUF_OFF), Rd::A], ..F_TWO },
+            Form { o: [Owner::Ptr(QN_OFF), Owner::Inline], rd: [Rd::CnameInline, Rd::A], ..F_TWO },
+            Form { o: [Owner::Ptr(QN_OFF), Owner::Ptr(RD1)], rd: [Rd::CnameLabelPtr(QN_OFF), Rd::A], ..F_TWO },
+            Form { o: [Owner::Ptr(QN_OFF), Owner::Ptr(RD1)], rd: [Rd::CnameLabelPtr(SELF), Rd::A], ..F_TWO },
+        );
+        kani::cover!(sel == 0 && o.completed && o.cname_followed && o.naddr == 1, "CNAME followed");
+        kani::cover!(sel == 1 && o.failed && o.cname_followed && o.other_name && o.rcode == 0, "record for the original name after a CNAME ignored");
+        kani::cover!(sel == 3 && o.completed, "CNAME to a three-label name followed");
+        kani::cover!(sel == 4 && o.acc && o.id_ok && o.port_ok && o.question_ok && o.qr && o.an == 2 && !o.completed && !o.failed, "CNAME pointing at itself: response dropped");
     }
 
-    // @harness props=C19,C03 cfg=KN tier=q to=1200 mem=8 unwind=34 opts=nomem covers=3 funcs=dns::Socket::process;wire::dns::Packet::parse_name;wire::dns::Record::parse;dns::eq_names;dns::copy_name bounds=54-byte_template:_two_answer_records_owned_by_0xc00c_and_by_a_pointer_to_any_14-bit_offset,_each_with_symbolic_TYPE/CLASS/RDLENGTH_and_4_RDATA_bytes_(A_only);_ANCOUNT_symbolic
+    // @harness props=C19,C03 cfg=KN tier=q to=900 mem=4 unwind=10 opts=nomem covers=4 funcs=dns::Socket::process;wire::dns::Record::parse;dns::eq_names bounds=two_answer_records_owned_by_0xc00c_/_inline_names:_A+A,_A+AAAA,_NS+A;_ANCOUNT_symbolic
     #[kani::proof]
     pub(crate) fn dns_process_two_records() {
-        let o = process_form(Form { nrec: 2, o: [Owner::PtrQ, Owner::PtrSym], rd: [4, 4], cname_first: false, trunc: false, complete: false });
-        kani::cover!(o.completed && o.naddr == 2, "query completed with two addresses");
-        kani::cover!(o.completed && o.naddr == 1 && o.other_name, "second record for another name ignored");
+        let (sel, o) = one_of!(
+            Form { ..F_TWO },
+            Form { o: [Owner::Ptr(QN_OFF), Owner::Inline], ..F_TWO },
+            Form { rd: [Rd::A, Rd::Aaaa], ..F_TWO },
+            Form { rd: [Rd::Other, Rd::A], ..F_TWO },
+        );
+        kani::cover!(sel == 0 && o.completed && o.naddr == 2, "query completed with two addresses");
+        kani::cover!(sel == 1 && o.completed && o.naddr == 1 && o.other_name, "second record for another name ignored");
         kani::cover!(o.completed && o.an == 1, "record beyond ANCOUNT not used");
+        kani::cover!(sel == 3 && o.completed && o.naddr == 1, "NS record skipped, address taken");
     }
 
-    // @harness props=C19,C03,C07 cfg=KN tier=q to=1200 mem=8 unwind=34 opts=nomem covers=3 funcs=dns::Socket::process;wire::dns::Packet::new_checked;wire::dns::Question::parse;wire::dns::Record::parse bounds=dns_process_ptrq's_template_cut_to_any_length_0..=50
+    // @harness props=C19,C03,C07 cfg=KN tier=q to=900 mem=4 unwind=10 opts=nomem covers=4 funcs=dns::Socket::process;wire::dns::Packet::new_checked;wire::dns::Question::parse;wire::dns::Record::parse;wire::dns::RecordData::parse bounds=dns_process_ptrq's_template_with_one_defect:_question_CLASS_2,_record_CLASS_2,_RDLENGTH_3_/_5_for_an_A_record,_message_cut_to_11_/_12_/_21_/_22_/_33_/_37_bytes
     #[kani::proof]
-    pub(crate) fn dns_process_truncated() {
-        let o = process_form(Form { trunc: true, ..F_ONE });
-        kani::cover!(o.completed, "untruncated response completes");
-        kani::cover!(o.acc && o.id_ok && o.port_ok && o.qr && o.an == 1 && !o.completed && !o.failed, "truncated response dropped");
-        kani::cover!(o.failed && o.rcode == 3, "NXDomain in a bare header fails the query");
+    pub(crate) fn dns_process_malformed() {
+        let (sel, o) = one_of!(
+            Form { qclass: 2, ..F_ONE },
+            Form { class: [2, 1], ..F_ONE },
+            Form { rdlen_delta: [-1, 0], ..F_ONE },
+            Form { rdlen_delta: [1, 0], ..F_ONE },
+            Form { cut: 11, ..F_ONE },
+            Form { cut: 12, ..F_ONE },
+            Form { cut: 21, ..F_ONE },
+            Form { cut: 22, ..F_ONE },
+            Form { cut: 33, ..F_ONE },
+            Form { cut: 37, ..F_ONE },
+        );
+        assert!(!o.completed, "prop:c19_malformed_response_never_completes_query");
+        kani::cover!(sel == 1 && o.acc && o.id_ok && o.port_ok && o.question_ok && o.qr && o.an == 1 && !o.failed, "record of another class: response dropped");
+        kani::cover!(sel == 9 && o.acc && o.id_ok && o.port_ok && o.question_ok && o.qr && o.an == 1 && !o.failed, "truncated RDATA: response dropped");
+        kani::cover!(sel == 5 && o.failed && o.rcode == 3, "NXDomain in a bare header fails the query");
+        kani::cover!(sel == 7 && o.failed && o.rcode == 0 && o.an == 0, "question-only response fails the query");
     }
 
-    // @harness props=C19 kind=mustfail cfg=KN tier=q to=900 mem=6 unwind=34 opts=nomem
+    // @harness props=C19 kind=mustfail cfg=KN tier=q to=900 mem=4 unwind=10 opts=nomem
     #[kani::proof]
     pub(crate) fn dns_process_must_fail() {
         let o = process_form(F_ONE);
@@ -1237,4 +1316,43 @@ mod v_socket_dns {
         }
     }
 
+
+
+    // XXEXP-BEGIN
+    #[kani::proof]
+    pub(crate) fn exp_i() {
+        dns_env!(dev, iface, cx, now);
+        let mut slots: [Option<DnsQuery>; 1 + PAD] = [None, None, None];
+        let servers = [IpAddress::Ipv4(S4), IpAddress::Ipv6(S6)];
+        let mut s = Socket::new(&servers[..], &mut slots[..1]);
+        let h = s.start_query(cx, "ab.c", Type::A).unwrap();
+        let mut t = Tpl::new();
+        let hd = put_header_question(&mut t, 1);
+        let m = t.b;
+        let n = t.n;
+        let p = Packet::new_unchecked(&m[..n]);
+        let qn: [u8; 3] = kani::any();
+        let txid: u16 = kani::any();
+        s.queries[0] = Some(DnsQuery { state: State::Pending(PendingQuery {
+            name: name_of(qn), type_: Type::A, port: kani::any(), txid, timeout_at: None, retransmit_at: Instant::ZERO,
+            delay: RETRANSMIT_DELAY, server_idx: 0, mdns: MulticastDns::Disabled }) });
+        let pq = pending_of(&mut s, 0);
+        let e = eq_names(p.parse_name(&m[12..18]), p.parse_name(&pq.name));
+        assert!(e.is_ok());
+    }
+    #[kani::proof]
+    pub(crate) fn exp_j() {
+        let qn: [u8; 3] = kani::any();
+        let txid: u16 = kani::any();
+        let mut st = State::Pending(PendingQuery {
+            name: name_of(qn), type_: Type::A, port: kani::any(), txid, timeout_at: None, retransmit_at: Instant::ZERO,
+            delay: RETRANSMIT_DELAY, server_idx: 0, mdns: MulticastDns::Disabled });
+        if let State::Pending(pq) = &mut st {
+            let sl: &[u8] = &pq.name;
+            let mut i = 0;
+            while i < sl[0] { i += 1; }
+            assert!(i == 2);
+        }
+    }
+    // XXEXP-END
 }
